@@ -454,6 +454,7 @@ Section Asm.
   Variable max_str : N.       (* maxStringSize *)
   Variable back_ver : N.      (* backBranchEnabledVersion *)
   Variable salt_ver : N.      (* LogicSigOffCurveVersion *)
+  Variable logic_ver : N.     (* LogicVersion *)
 
   Definition by_name (v : N) (n : string) : opspec :=
     match names v n with Some s => s | None => zero_spec end.
@@ -496,101 +497,107 @@ Section Asm.
   Definition deadens (name : string) : bool :=
     existsb (String.eqb name) ["b"; "retsub"; "err"; "return"]%string.
 
+  (* asmDefault (+ the extra constraint of asmSubstring) *)
+  Definition asm_default (v : N) (st : astate) (si : sinstr) (op : opspec)
+    : option (pinstr * astate) :=
+    match asm_default_imms v (os_name op) (os_imms op) (s_imms si) with
+    | Some l =>
+        let sub_ok :=
+          if String.eqb (os_name op) "substring" then
+            match s_imms si with
+            | [SByte s; SByte e] => negb (e <? s)
+            | _ => true
+            end
+          else true in
+        if sub_ok then Some (PFixed (spec_head op ++ l), st) else None
+    | None => None
+    end.
+
+  (* the per-op assemble function (spec.asm) applied to the statement's arguments; the ops
+     with their own assemble function are recognised by name (arg, intc, bytec, the constant
+     blocks) or by the kinds of their immediates *)
+  Definition asm_res (v : N) (st : astate) (si : sinstr) (op : opspec) : option (pinstr * astate) :=
+    let name := os_name op in
+    let kinds := map (fun im => kind_of (im_kind im)) (os_imms op) in
+    let opb := os_opcode op in
+    if String.eqb name "arg" then
+      match s_imms si with
+      | [SByte n] =>
+          if n <? 256 then
+            if n <? 4 then Some (PFixed (spec_head (by_name v (short_name "arg" n))), st)
+            else asm_default v st si op
+          else None
+      | _ => None
+      end
+    else if String.eqb name "intc" then
+      match s_imms si with
+      | [SByte n] =>
+          if n <? 256 then
+            match write_const v "intc" n (a_nintc st) with
+            | Some l => Some (PFixed l, st)
+            | None => None
+            end
+          else None
+      | _ => None
+      end
+    else if String.eqb name "bytec" then
+      match s_imms si with
+      | [SByte n] =>
+          if n <? 256 then
+            match write_const v "bytec" n (a_nbytec st) with
+            | Some l => Some (PFixed l, st)
+            | None => None
+            end
+          else None
+      | _ => None
+      end
+    else if String.eqb name "intcblock" then
+      match s_imms si with
+      | [SInts l] =>
+          if forallb u64_ok l then
+            Some (PFixed (opb :: put_uvarint (nlen l) ++ flat_map put_uvarint l),
+                  if a_dead st then st else mkA (a_dead st) (nlen l) (a_nbytec st))
+          else None
+      | _ => None
+      end
+    else if String.eqb name "bytecblock" then
+      match s_imms si with
+      | [SBytess l] =>
+          if forallb (fun bs => nlen bs <=? max_str) l then
+            Some (PFixed (opb :: put_uvarint (nlen l) ++ flat_map enc_bytes l),
+                  if a_dead st then st else mkA (a_dead st) (a_nintc st) (nlen l))
+          else None
+      | _ => None
+      end
+    else
+      match kinds, s_imms si with
+      | [KInt], [SInt n] => if u64_ok n then Some (PFixed (opb :: put_uvarint n), st) else None
+      | [KBytes], [SBytes bs] =>
+          if nlen bs <=? max_str then Some (PFixed (opb :: enc_bytes bs), st) else None
+      | [KInts], [SInts l] =>
+          if forallb u64_ok l
+          then Some (PFixed (opb :: put_uvarint (nlen l) ++ flat_map put_uvarint l), st)
+          else None
+      | [KBytess], [SBytess l] =>
+          if forallb (fun bs => nlen bs <=? max_str) l
+          then Some (PFixed (opb :: put_uvarint (nlen l) ++ flat_map enc_bytes l), st)
+          else None
+      | [KLabel], [SLabel k] => Some (PBranch2 opb k, st)
+      | [KVLabel], [SVLabel k] => Some (PBranchV opb k, st)
+      | [KLabels], [SLabels ks] =>
+          if (List.length ks <=? 255)%nat then Some (PSwitch opb ks, st) else None
+      | _, _ => asm_default v st si op
+      end.
+
   Definition asm_one (v : N) (st : astate) (si : sinstr) : option (pinstr * astate) :=
     match spec_at tbl v (s_op si) (s_sub si) with
     | None => None
     | Some op =>
-        let name := os_name op in
-        let kinds := map im_kind (os_imms op) in
-        let opb := os_opcode op in
-        let res : option (pinstr * astate) :=
-          if String.eqb name "arg" then
-            match s_imms si with
-            | [SByte n] =>
-                if n <? 256 then
-                  if n <? 4 then Some (PFixed (spec_head (by_name v (short_name "arg" n))), st)
-                  else match asm_default_imms v name (os_imms op) (s_imms si) with
-                       | Some l => Some (PFixed (spec_head op ++ l), st)
-                       | None => None
-                       end
-                else None
-            | _ => None
-            end
-          else if String.eqb name "intc" then
-            match s_imms si with
-            | [SByte n] =>
-                if n <? 256 then
-                  match write_const v "intc" n (a_nintc st) with
-                  | Some l => Some (PFixed l, st)
-                  | None => None
-                  end
-                else None
-            | _ => None
-            end
-          else if String.eqb name "bytec" then
-            match s_imms si with
-            | [SByte n] =>
-                if n <? 256 then
-                  match write_const v "bytec" n (a_nbytec st) with
-                  | Some l => Some (PFixed l, st)
-                  | None => None
-                  end
-                else None
-            | _ => None
-            end
-          else if String.eqb name "intcblock" then
-            match s_imms si with
-            | [SInts l] =>
-                if forallb u64_ok l then
-                  Some (PFixed (opb :: put_uvarint (nlen l) ++ flat_map put_uvarint l),
-                        if a_dead st then st else mkA (a_dead st) (nlen l) (a_nbytec st))
-                else None
-            | _ => None
-            end
-          else if String.eqb name "bytecblock" then
-            match s_imms si with
-            | [SBytess l] =>
-                if forallb (fun bs => nlen bs <=? max_str) l then
-                  Some (PFixed (opb :: put_uvarint (nlen l) ++ flat_map enc_bytes l),
-                        if a_dead st then st else mkA (a_dead st) (a_nintc st) (nlen l))
-                else None
-            | _ => None
-            end
-          else
-            match kinds, s_imms si with
-            | [3], [SInt n] => if u64_ok n then Some (PFixed (opb :: put_uvarint n), st) else None
-            | [4], [SBytes bs] =>
-                if nlen bs <=? max_str then Some (PFixed (opb :: enc_bytes bs), st) else None
-            | [5], [SInts l] =>
-                if forallb u64_ok l
-                then Some (PFixed (opb :: put_uvarint (nlen l) ++ flat_map put_uvarint l), st)
-                else None
-            | [6], [SBytess l] =>
-                if forallb (fun bs => nlen bs <=? max_str) l
-                then Some (PFixed (opb :: put_uvarint (nlen l) ++ flat_map enc_bytes l), st)
-                else None
-            | [2], [SLabel k] => Some (PBranch2 opb k, st)
-            | [8], [SVLabel k] => Some (PBranchV opb k, st)
-            | [7], [SLabels ks] =>
-                if (List.length ks <=? 255)%nat then Some (PSwitch opb ks, st) else None
-            | _, _ =>
-                match asm_default_imms v name (os_imms op) (s_imms si) with
-                | Some l =>
-                    let sub_ok :=
-                      if String.eqb name "substring" then
-                        match s_imms si with
-                        | [SByte s; SByte e] => negb (e <? s)
-                        | _ => true
-                        end
-                      else true in
-                    if sub_ok then Some (PFixed (spec_head op ++ l), st) else None
-                | None => None
-                end
-            end in
-        match res with
+        match asm_res v st si op with
         | None => None
         | Some (pi, st1) =>
             (* "if spec.deadens() { deaden() }; if spec.Name == "callsub" { label() }" *)
+            let name := os_name op in
             let dead := if deadens name then true
                         else if String.eqb name "callsub" then false else a_dead st1 in
             Some (pi, mkA dead (a_nintc st1) (a_nbytec st1))
@@ -740,7 +747,8 @@ Section Asm.
 
   (* varintBranchInitialSize = 3; at most 2 shrinking rounds per branch *)
   Definition asm_base (v : N) (p : list sinstr) (labs : list nat) : ares :=
-    if negb (u64_ok v) then AReject else
+    (* parseText: "Can not assemble version %d" *)
+    if logic_ver <? v then AReject else
     match asm_pass1 v labs 0 (mkA false 0 0) p with
     | None => AReject
     | Some ps =>
@@ -775,7 +783,6 @@ Section Asm.
   Definition salt_suffix (v salt : N) : list N := [os_opcode (by_name v "intcblock"); 1; salt].
 
   (* ---------------------------------------------------------------- disassembler label layer *)
-  Variable logic_ver : N.
 
   (* decode with the start pc of every instruction *)
   Fixpoint dec_layout (strict : bool) (v plen : N) (fuel pc : nat) (buf : list N)
